@@ -483,7 +483,8 @@ type blockRes struct {
 	txErr     []string
 	txBefore  []dkgObs
 	txLeft    []dkgObs // DKG lists in the state the call left behind (kept only when accepted)
-	idKnown   []bool
+	idKnown   []bool // share: the MPKs node has an entry for the "id" of the input (what an unrepaired Validate looked up)
+	senderMPK []bool // share: the MPKs node has an entry for the sender (what Validate looks up)
 	ownMPK    []bool // share: the sender's own MPK of this DKG is recorded under its id
 	moveRes   string // FOk FErr FNodeNotFound (recorded on a copy of the state)
 	funcRes   string
@@ -632,7 +633,7 @@ func (w *world) runBlock(round int64, b blk) blockRes {
 		r.txBefore = append(r.txBefore, d)
 		var fn string
 		var in []byte
-		known := true
+		known, senderMPK := true, true
 		switch t.Kind {
 		case "contribute":
 			fn, in = "contributeMpk", w.contributeInput(t, d)
@@ -643,6 +644,7 @@ func (w *world) runBlock(round int64, b blk) blockRes {
 				id = t.SosID
 			}
 			known = has(d.mpks, id)
+			senderMPK = has(d.mpks, t.From)
 		case "wait":
 			fn, in = "wait", nil
 		case "keep":
@@ -668,6 +670,7 @@ func (w *world) runBlock(round int64, b blk) blockRes {
 		}
 		r.ownMPK = append(r.ownMPK, w.ownMPK[t.From] == w.cycle+1)
 		r.txRes, r.txErr, r.idKnown = append(r.txRes, res), append(r.txErr, e), append(r.idKnown, known)
+		r.senderMPK = append(r.senderMPK, senderMPK)
 		r.txLeft = append(r.txLeft, w.observe(left, round))
 	}
 	// ---- the phase step of payFees ----
@@ -1199,7 +1202,13 @@ func genSetup(r *vh.Rand) hist {
 		h.PrevSharders = []int{51}
 	}
 	minN := r.Range(2, h.NMiners)
+	if r.Chance(1, 8) {
+		minN = h.NMiners + 1 // the move out of Start succeeds, createDKGMinersForContribute then fails: restart
+	}
 	maxN := r.Range(minN, h.NMiners+1)
+	if maxN < minN {
+		maxN = minN
+	}
 	h.Settings = map[string]string{"min_n": fmt.Sprint(minN), "max_n": fmt.Sprint(maxN), "min_s": "1", "max_s": fmt.Sprint(r.Range(1, 3))}
 	if r.Chance(1, 4) {
 		h.Settings["x_percent"] = []string{"0", "-1", "0.5", "1", "NaN", "0.01"}[r.Intn(6)]
@@ -1241,14 +1250,14 @@ func coqTxn(t txn, r blockRes, i int) (string, bool) {
 			case "badsign":
 				es = append(es, "(SoSign false)")
 			case "share":
-				es = append(es, "(SoShare true "+vh.Bool((t.SosID == 0 || t.SosID == t.From) && r.ownMPK[i])+")")
+				es = append(es, "(SoShare true "+vh.Bool(r.ownMPK[i])+")")
 			case "badshare":
 				es = append(es, "(SoShare true false)")
 			case "badhex":
 				es = append(es, "(SoShare false false)")
 			}
 		}
-		return fmt.Sprintf("(TxShare %d %s %s %s)", t.From, vh.Bool(!t.Garbage), vh.Bool(r.idKnown[i]), vh.List(es)), true
+		return fmt.Sprintf("(TxShare %d %s %s %s)", t.From, vh.Bool(!t.Garbage), vh.Bool(r.senderMPK[i]), vh.List(es)), true
 	case "wait":
 		return fmt.Sprintf("(TxWait %d)", t.From), true
 	}
